@@ -152,6 +152,12 @@ def schedule_horizon(ctx, info, rng):
                          (r["case"], r["backend"], r["offered_now"], r["state"], "after" if r["next_after_now"] else "NOT after", r.get("err") or "no error"),
                          {"kind": "history", "case": {"backend": r["backend"], "next_run_at_year": r["case"], "calls": ["Enqueue(next_run_at = 1 Jan of the year)", "Dequeue(batch 5) now"]},
                           "observed": r})
+        elif r["case"].startswith("received_at-future"):
+            if r.get("err") or r["evicted"] != "recent":
+                C.report(ctx, "newest-beyond-int64-horizon:%s" % r["backend"],
+                         "max_depth 2 drop_oldest on the %s store, messages received an hour ago and on %s (1 January of that year, in the future): a third enqueue "
+                         "evicted %r (%s); the oldest queued message is the one received an hour ago" % (r["backend"], r["case"], r["evicted"], r.get("err") or "no error"),
+                         {"kind": "history", "case": {"backend": r["backend"], "received_at_year": r["case"]}, "observed": r})
         else:
             if r.get("err") or r["evicted"] != "ancient":
                 C.report(ctx, "oldest-beyond-int64-horizon:%s" % r["backend"],
